@@ -441,6 +441,11 @@ pub fn gen(out: &mut Out, thorough: bool, seed: u64) {
         b"POST / HTTP/1.1\r\nContent-Length: x\r\n\r\n",
         b"",
         b"G",
+        b"GET / HTTP/1.1\r\nX: caf\xe9\r\n\r\n",
+        b"GET / HTTP/1.1\r\nX\xff: v\r\n\r\n",
+        b"GET /\xe9 HTTP/1.1\r\n\r\n",
+        b"GET / HTTP/1.1\r\nX: \xe2\x82\r\n\r\n",
+        b"POST / HTTP/1.1\r\nContent-Length: 2\r\n\r\n\xff\xfe",
     ];
     for c in corner {
         for cuts in ["w", "1", "k3"] {
